@@ -11,6 +11,7 @@ Extraction "C20_model.ml" wire_anchor
   run_m init_state destroy_all live_m swap_unchecked_m
   pair_traits_m tuple_traits_m refwrap_ops_m fref_ops_m notfn_static_m ret_decltype_auto
   void_ret_m make_pair_member_m void_ret_spec make_pair_member_spec
+  tuple_structured_binding_m get_by_type_m tuple_structured_binding_spec get_by_type_spec
   pair_traits_spec tuple_traits_spec refwrap_ops_spec fref_ops_spec notfn_static_spec
   get_spec forward_spec forward_like_spec invoke_pmf_spec invoke_pmd_spec invoke_fo_spec ipf_call_spec
   fref_call_spec refwrap_call_spec notfn_call_spec bindfront_call_spec apply_cats_spec get_all_spec pair_assign_spec
